@@ -256,11 +256,11 @@ Qed.
 
 Hypothesis Hraw : forall m, 0 <= raw m.
 
-Lemma decrypt_eq_spec_all n d enc :
-  11 <= numBytes n <= 65535 -> 0 <= d ->
-  decrypt hash hmac raw true n d "rsa"%string enc = Ok (spec_decrypt hash hmac raw n d enc).
+Lemma decrypt_eq_spec_all n d cache enc :
+  11 <= numBytes n <= 65535 -> 0 <= d -> cache_ok hash n d cache ->
+  decrypt hash hmac raw true n d "rsa"%string cache enc = Ok (spec_decrypt hash hmac raw n d enc).
 Proof.
-  intros Hk Hd. unfold decrypt, spec_decrypt, raw_private_key_op_bytes.
+  intros Hk Hd Hcache. unfold decrypt, spec_decrypt, raw_private_key_op_bytes.
   change (negb true) with false. change (String.eqb "rsa" "rsa") with true. change (negb true) with false.
   cbv beta iota zeta.
   set (k := numBytes n) in *.
@@ -270,6 +270,11 @@ Proof.
   destruct (bytesToNumber enc >=? n) eqn:E3; [lia|].
   rewrite numberToByteArray_ok by (try apply Hraw; lia). cbn [bind].
   rewrite numberToByteArray_ok by lia. cbn [bind].
+  assert (HC : (if opt_falsy cache then Ok (hash (be_bytes (Z.to_nat k) d)) else opt_get cache)
+               = Ok (hash (be_bytes (Z.to_nat k) d))).
+  { destruct Hcache as [->|[->| ->]]; try reflexivity. fold k.
+    destruct (hash (be_bytes (Z.to_nat k) d)); reflexivity. }
+  rewrite HC. cbn [bind]. clear HC.
   set (dec := be_bytes (Z.to_nat k) (raw (bytesToNumber enc))).
   set (kdk := hmac (hash (be_bytes (Z.to_nat k) d)) enc).
   change (Z.mul (Z.mul 128 2) 8) with 2048.
@@ -322,6 +327,8 @@ Proof.
     rewrite sel16 by lia. reflexivity. }
   destruct (scan_fold F2 HF2 rest 2 e0 ltac:(lia) ltac:(lia) Hrest) as [HSC HLB].
   rewrite HSC. clear HSC HF2. clearbody F2. clear F2. cbv beta iota.
+  (* when the scan lives in an (inlined) helper its result reaches the caller through a bind *)
+  cbn [bind]. cbv beta iota.
   rewrite (isnonzero_b2z (late 2 rest)) by (unfold u32; lia).
   rewrite b2z_lxor1, negb_involutive, b2z_lor.
   remember ((e0 || early 2 rest) || (late 2 rest =? 0)) as E eqn:HE.
@@ -358,15 +365,15 @@ Proof.
 Qed.
 
 (* only publicly invalid ciphertexts fail, and nothing ever raises *)
-Lemma decrypt_total_all n d enc :
-  11 <= numBytes n <= 65535 -> 0 <= d ->
+Lemma decrypt_total_all n d cache enc :
+  11 <= numBytes n <= 65535 -> 0 <= d -> cache_ok hash n d cache ->
   (zlen enc = numBytes n /\ bytesToNumber enc < n ->
-     exists m, decrypt hash hmac raw true n d "rsa"%string enc = Ok (Some m) /\ all_bytes m = true
+     exists m, decrypt hash hmac raw true n d "rsa"%string cache enc = Ok (Some m) /\ all_bytes m = true
                /\ zlen m <= numBytes n - 11) /\
   (~ (zlen enc = numBytes n /\ bytesToNumber enc < n) ->
-     decrypt hash hmac raw true n d "rsa"%string enc = Ok None).
+     decrypt hash hmac raw true n d "rsa"%string cache enc = Ok None).
 Proof.
-  intros Hk Hd. rewrite decrypt_eq_spec_all by assumption. unfold spec_decrypt.
+  intros Hk Hd Hc. rewrite decrypt_eq_spec_all by assumption. unfold spec_decrypt.
   split.
   - intros [A B]. destruct (zlen enc =? numBytes n) eqn:E1; [|lia].
     destruct (bytesToNumber enc <? n) eqn:E2; [|lia]. cbn [andb].
@@ -407,32 +414,32 @@ Lemma spec_em_invalid_indep k em1 em2 lr mr :
   spec_decrypt_em k em1 lr mr = spec_decrypt_em k em2 lr mr.
 Proof. intros H1 H2. unfold spec_decrypt_em. rewrite H1, H2. reflexivity. Qed.
 
-Lemma synthetic_independent_all hash hmac raw1 raw2 n d enc :
+Lemma synthetic_independent_all hash hmac raw1 raw2 n d cache enc :
   (forall k m, zlen (hmac k m) = 32) -> (forall k m, all_bytes (hmac k m) = true) ->
   (forall m, 0 <= raw1 m) -> (forall m, 0 <= raw2 m) ->
-  11 <= numBytes n <= 65535 -> 0 <= d ->
+  11 <= numBytes n <= 65535 -> 0 <= d -> cache_ok hash n d cache ->
   pkcs1_unpad (be_bytes (Z.to_nat (numBytes n)) (raw1 (bytesToNumber enc))) = None ->
   pkcs1_unpad (be_bytes (Z.to_nat (numBytes n)) (raw2 (bytesToNumber enc))) = None ->
-  decrypt hash hmac raw1 true n d "rsa"%string enc = decrypt hash hmac raw2 true n d "rsa"%string enc.
+  decrypt hash hmac raw1 true n d "rsa"%string cache enc = decrypt hash hmac raw2 true n d "rsa"%string cache enc.
 Proof.
-  intros H1 H2 R1 R2 Hk Hd U1 U2.
+  intros H1 H2 R1 R2 Hk Hd Hc U1 U2.
   rewrite !decrypt_eq_spec_all by assumption. f_equal. unfold spec_decrypt.
   destruct ((zlen enc =? numBytes n) && (bytesToNumber enc <? n)); [|reflexivity].
   cbv zeta. f_equal. apply spec_em_invalid_indep; assumption.
 Qed.
 
 (* the synthetic length is a function of the key size and the "length" PRF stream only *)
-Lemma invalid_result_length hash hmac raw n d enc :
+Lemma invalid_result_length hash hmac raw n d cache enc :
   (forall k m, zlen (hmac k m) = 32) -> (forall k m, all_bytes (hmac k m) = true) ->
   (forall m, 0 <= raw m) ->
-  11 <= numBytes n <= 65535 -> 0 <= d ->
+  11 <= numBytes n <= 65535 -> 0 <= d -> cache_ok hash n d cache ->
   zlen enc = numBytes n -> bytesToNumber enc < n ->
   pkcs1_unpad (be_bytes (Z.to_nat (numBytes n)) (raw (bytesToNumber enc))) = None ->
-  exists m, decrypt hash hmac raw true n d "rsa"%string enc = Ok (Some m) /\
+  exists m, decrypt hash hmac raw true n d "rsa"%string cache enc = Ok (Some m) /\
             zlen m = synth_len (numBytes n)
                        (prf_spec hmac (hmac (hash (be_bytes (Z.to_nat (numBytes n)) d)) enc) label_length 2048).
 Proof.
-  intros H1 H2 R Hk Hd A B U.
+  intros H1 H2 R Hk Hd Hc A B U.
   rewrite decrypt_eq_spec_all by assumption. unfold spec_decrypt.
   destruct (zlen enc =? numBytes n) eqn:E1; [|lia]. destruct (bytesToNumber enc <? n) eqn:E2; [|lia].
   cbn [andb]. cbv zeta. eexists. split; [reflexivity|].
